@@ -211,7 +211,18 @@ func c16Count(w *mon.W, idx int) {
 		keys = gen.SortedUnique(gen.KeyZoo(r, 2+r.Intn(r.Pick(7, 7, 39)), r.Pick(1, 2, 3, 9, 17)))
 	}
 	w.Op, w.Obj = "sigbits.New", keys
-	sb := sigbits.New(keys)
+	qKeys, gKeys := argStrs(w, keys) // the reused, poisoned argument buffer of this worker
+	sb := sigbits.New(qKeys)
+	if !gKeys() {
+		w.Fail("New/wrote-outside-len-of-argument", mon.D{"nkeys": len(keys)})
+		return
+	}
+	for i := range qKeys {
+		if qKeys[i] != keys[i] {
+			w.Fail("New/input-modified", mon.D{"nkeys": len(keys), "i": i})
+			return
+		}
+	}
 	n := len(keys)
 	all := n <= 8
 	check := func(s, e, m int) bool {
